@@ -38,8 +38,8 @@ CLAIMED = {
          "Generated-input search: the output directory must hold exactly one file per module, each with exactly the declared structs/enums/vftable structs/accessors; rust prologue/epilogue markers in order and position, other backends absent; every injected duplicate definition (type/type, type/enum, type/extern, user <T>Vftable, extern value/extern value) must be an error; module files under directory names and stems with dots in them (siblings equal up to a dot) land at <input path>.rs. Exploration.",
          "Backend text is observed through uniquely named marker consts placed in it by the generator.",
          "DESIGN.md §4 C14"),
- "C16": ("proptest rich programs; syn visitor over every bare-fn type of the unnormalised output against the declared/default convention per slot and wrapper; unknown names must be rejected",
-         "Generated-input search: each vftable slot and each address-bound wrapper must carry the declared calling convention or the documented default, placeholder slots thiscall, consistent through inheritance; 18 near-miss names must be rejected and the 7 real ones accepted. Exploration.",
+ "C16": ("proptest rich programs; syn visitor over every bare-fn type of the unnormalised output against the declared/default convention per slot and wrapper; unknown names must be rejected; a derived table restating a slot with another convention",
+         "Generated-input search: each vftable slot and each address-bound wrapper must carry the declared calling convention or the documented default, placeholder slots thiscall, consistent through inheritance; 18 near-miss names must be rejected and the 7 real ones accepted; a chain whose last level restates one base slot with a different convention is rejected or has one ABI string per base slot in every table. Exploration.",
          "Method surface (which wrappers exist on which type) comes from the reference model in refmodel.rs.",
          "DESIGN.md §4 C16"),
  "C17": ("proptest rich programs with random visibility/marker/doc assignment; syn view of the output compared with the reference placement; multiset equality of all doc lines per file",
@@ -79,7 +79,7 @@ CLAIMED = {
          "Schedules are installed through the cfg(pyxis_verif) hook in TypeRegistry::unresolved(); iteration order of the modules map (which file is written first) is sampled by fresh processes only.",
          "DESIGN.md §4 C09"),
  "C03": ("proptest + exhaustive small-scope grid against a reference realisability predicate (both directions)",
-         "Generated-input search with a two-sided oracle: SemanticState::build returns Ok iff the reference model (written from the property statement) says the single-type description is realisable, and on Ok the resolved size/alignment equal the model's. An exhaustive grid (<=2 fields x address x size x align x packed x vftable x width) plus random descriptions with up to 8 fields. Exploration; exhaustive only inside the stated grid.",
+         "Generated-input search with a two-sided oracle: SemanticState::build returns Ok iff the reference model (written from the property statement) says the single-type description is realisable, and on Ok the resolved size/alignment equal the model's. An exhaustive grid (<=2 fields x address x size x align x packed x vftable x width) plus random descriptions with up to 8 fields, plus types whose members are other user types (empty, zero-sized with alignment, packed, over-aligned, vftable owners, enums, extern types; by value, in arrays, as bases). Exploration; exhaustive only inside the stated grid.",
          "Trusts the reference model in harness/src/refmodel.rs (default-alignment rule pinned from the code, see DESIGN.md §2.2).",
          "DESIGN.md §4 C03"),
  "C18": ("proptest round-trip print->parse, parse->print->parse, bad-token negative; tape-driven generators over the full grammar",
